@@ -127,6 +127,31 @@ func Lexeme(k int) string {
 	return "@"
 }
 
+// variant lexemes with characters that only matter to code that looks INSIDE token texts (comment markers, separators,
+// blanks, escaped quotes); each still lexes to the same kind
+var variants = map[lexer.TokenType][]string{
+	lexer.ItemLiteral:   {`"1"^^type:int64`, `"#tag"^^type:text`, `"a;b // c"^^type:text`, `"x  y"^^type:text`, `"say \\\"hi\\\" #1"^^type:text`},
+	lexer.ItemNode:      {`/u<a>`, `/room<12#b>`, `/u<a;b>`, `/t<x y>`},
+	lexer.ItemPredicate: {`"p"@[]`, `"see#also"@[]`, `"a;b"@[]`, `"p q"@[]`},
+	lexer.ItemBinding:   {`?x`, `?y`, `?X`, `?x_1`},
+}
+
+// RenderVariant is Render with the k-th variant lexeme for the kinds that have variants (k = position + salt).
+func RenderVariant(toks []int, salt int) string {
+	var b strings.Builder
+	for i, t := range toks {
+		if vs, ok := variants[lexer.TokenType(t)]; ok {
+			b.WriteString(vs[(i+salt)%len(vs)])
+		} else {
+			b.WriteString(Lexeme(t))
+		}
+		if i+1 < len(toks) && !(lexer.TokenType(t) == lexer.ItemFilterFunction && lexer.TokenType(toks[i+1]) == lexer.ItemLPar) {
+			b.WriteString(" ")
+		}
+	}
+	return b.String()
+}
+
 func Render(toks []int) string {
 	var b strings.Builder
 	for i, t := range toks {
